@@ -68,6 +68,18 @@ def build_derivative(torch, mk, dtype=None):
     return d, u
 
 
+def extra_hedges(torch, g, mk, n_extra, dtype=None):
+    """additional hedging instruments (primaries with injected dyadic buffers of the same shape)"""
+    import pfhedge.instruments as I
+    dtype = dtype or torch.float64
+    out = []
+    for _ in range(n_extra):
+        s_ = I.BrownianStock(cost=float(F(g.choice([0, 1, 4]), 256)), dt=float(mk["dt"]), dtype=dtype)
+        s_.register_buffer("spot", tens(torch, [[g.dy(F(1, 2), 4, 3) for _ in range(mk["T"])] for _ in range(mk["N"])], dtype))
+        out.append(s_)
+    return out
+
+
 def inject(torch, u, mk, dtype=None):
     dtype = dtype or torch.float64
     u.register_buffer("spot", tens(torch, mk["spot"], dtype))
